@@ -27,12 +27,12 @@ type base struct {
 	thoroughB   int
 }
 
-func (b base) ID() string              { return b.id }
-func (b base) Race() bool              { return b.race }
-func (b base) Level() string           { return b.level }
-func (b base) Rule() string            { return b.rule }
-func (b base) Need() []string          { return b.need }
-func (b base) Assumptions() []string   { return b.assumptions }
+func (b base) ID() string            { return b.id }
+func (b base) Race() bool            { return b.race }
+func (b base) Level() string         { return b.level }
+func (b base) Rule() string          { return b.rule }
+func (b base) Need() []string        { return b.need }
+func (b base) Assumptions() []string { return b.assumptions }
 func (b base) Batches(tier string) int {
 	if tier == "thorough" {
 		return b.thoroughB
@@ -108,4 +108,14 @@ type expMsg struct {
 	OIDs    []uint32
 	NParams int
 	POIDs   []oid.Oid
+}
+
+func init() {
+	// servers of odd batches log at every level (into nowhere): behaviour must not depend on it
+	core.BeforeRun = func(c *core.Ctx) {
+		hs.LogAll = c.Batch%2 == 1
+		if hs.LogAll {
+			c.Count("batches_with_debug_logging", 1)
+		}
+	}
 }
